@@ -224,9 +224,16 @@ def build_scenarios(prop, tier, rnd):
     elif prop == "C14":
         walks = random_walks(10 if q else 120, 5 if q else 8, rnd, keys=(1, 2), contents=("A", "B", "G"))
         fixed = [[{"op": "put", "k": 1, "c": "A"}, {"op": "put", "k": 1, "c": "B"}, {"op": "put", "k": 2, "c": "B"}, {"op": "del", "k": 2}],
-                 [{"op": "put", "k": 1, "c": "A"}, {"op": "put", "k": 2, "c": "A"}, {"op": "delr", "lo": ["U", 0], "hi": ["U", 0]}, {"op": "put", "k": 1, "c": "B"}]]
+                 [{"op": "put", "k": 1, "c": "A"}, {"op": "put", "k": 2, "c": "A"}, {"op": "delr", "lo": ["U", 0], "hi": ["U", 0]}, {"op": "put", "k": 1, "c": "B"}],
+                 # faults while appending to a segment that earlier sessions already filled partly
+                 [{"op": "put", "k": 1, "c": "A"}, {"op": "put", "k": 2, "c": "B"}, {"op": "reopen"}, {"op": "put", "k": 3, "c": "A"},
+                  {"op": "del", "k": 1}, {"op": "reopen"}, {"op": "put", "k": 1, "c": "B"}, {"op": "ckpt"}, {"op": "put", "k": 2, "c": "A"}],
+                 [{"op": "put", "k": 1, "c": "G"}, {"op": "reopen"}, {"op": "put", "k": 1, "c": "A"}, {"op": "reopen"}, {"op": "del", "k": 1}]]
+        for i, ops in enumerate(fixed):
+            # the fixed histories also with one big segment (no rollover between the sessions)
+            add(ops, {"kt": ["string", "bytes"][i % 2], "n": 10000, "sync": True}, {"mode": "fault", "errno": "EIO"}, chunk=i)
         for i, ops in enumerate(fixed + walks):
-            cfg = {"kt": ["string", "bytes", "string_big"][i % 3], "n": [2, 1, 3][i % 3], "sync": True}
+            cfg = {"kt": ["string", "bytes", "string_big"][i % 3], "n": [2, 10000, 3, 1][i % 4], "sync": True}
             add(ops, cfg, {"mode": "fault", "errno": ["EIO", "ENOSPC"][i % 2]}, chunk=i)
     elif prop == "C19":
         walks = random_walks(4 if q else 30, 5, rnd, keys=(1, 2, 3), contents=("A", "B"))
